@@ -145,7 +145,7 @@ def check_conc(prop, tier, seed):
     geos, jobs = conc_jobs(tier, seed)
     vlib.build_all(geos)
     outs = gen_and_validate(res, jobs, [prop], par=vlib.NCPU)
-    sj, sfiles, ntotal = synth_jobs(tier, seed, geos, sample=(150 if tier == "quick" else None))
+    sj, sfiles, ntotal = synth_jobs(tier, seed, geos, sample=(300 if tier == "quick" else None))
     try:
         outs += gen_and_validate(res, sj, [prop], par=vlib.NCPU)
     finally:
@@ -486,6 +486,7 @@ GEN_THEMES = {
     "Cursor": [({"tf": 2, "hf": 0, "plus": 0}, "free", "simple", 1)],
     "Frag": [({"tf": 2, "hf": 0, "plus": 0}, "free", "simple", 1), ({"tf": 2, "hf": 0, "plus": 0}, "free", "movable", 1),
              ({"tf": 3, "hf": 0, "plus": 0}, "free", "simple", 2)],
+    "Full": [({"tf": 1, "hf": 0, "plus": 0}, "free", "simple", 1), ({"tf": 2, "hf": 0, "plus": 0}, "free", "movable", 1)],
     "Offline": [({"tf": 3, "hf": 0, "plus": 0}, "free", "simple", 1), ({"tf": 2, "hf": 1, "plus": 0}, "free", "zeroed", 1),
                 ({"tf": 2, "hf": 0, "plus": 0}, "alloc", "simple", 1)],
 }
@@ -517,7 +518,7 @@ def script_jobs(tier, seed, themes=None):
     os.makedirs(vlib.WORK, exist_ok=True)
     for theme in (themes or GEN_THEMES):
         # the Cursor theme has 6 letters and needs 5 steps (reserve, move the cursor, refill, allocate)
-        seqs, st = gen_sequences(theme, depth + 2 if theme == "Cursor" else depth)
+        seqs, st = gen_sequences(theme, depth + 2 if theme in ("Cursor", "Full") else depth)
         states += st[1]
         nseq += len(seqs)
         cfgs = GEN_THEMES[theme]
@@ -671,12 +672,12 @@ def check_c05_fine(prop, tier, seed):
 PLANS["C05"] = check_c05_fine
 
 
-def synth_jobs(tier, seed, geos, extra=(), sample=None):
+def synth_jobs(tier, seed, geos, extra=(), sample=None, only=None):
     """synthesised two-thread scenarios (bin/scngen.py): files of ~40 scenarios, one harness job each"""
     import scngen, random
     jobs, files, total = [], [], 0
     for g in geos:
-        sc = scngen.scenarios(g, with_triples=(tier == "thorough"), with_known=(tier == "thorough"))
+        sc = scngen.scenarios(g, with_triples=(tier == "thorough"), with_known=(tier == "thorough"), only=only)
         rnd = random.Random(seed * 7919 + len(g))
         rnd.shuffle(sc)
         if sample:
@@ -690,3 +691,37 @@ def synth_jobs(tier, seed, geos, extra=(), sample=None):
             a += ["bound=2", "limit=250", "pct=20", "depth=3"] if tier == "quick" else ["bound=3", "limit=4000", "pct=300", "depth=4"]
             jobs.append((g, a + list(extra)))
     return jobs, files, total
+
+
+_seq_check = check_seq
+
+
+def check_c15(prop, tier, seed):
+    """sequential histories (the property's own quantifier) + tree changes racing with allocations"""
+    res = _seq_check(prop, tier, seed)
+    if not vlib.STOP.is_set():
+        geos = ["th4", "th1"] if tier == "quick" else ["th4", "th1", "th2", "th8"]
+        sj, sfiles, n = synth_jobs(tier, seed, geos, only=("offline", "offlined", "offlined2", "zeroedcls"))
+        try:
+            gen_and_validate(res, sj, [prop], par=vlib.NCPU)
+        finally:
+            for f in sfiles:
+                if os.path.exists(f):
+                    os.unlink(f)
+        res.cov["rule"] += "; plus synthesised two-thread scenarios with tree changes racing against allocations / frees / drains (%d scenarios)" % n
+    return res
+
+
+def check_c10(prop, tier, seed):
+    """sequential histories + drain-and-probe at the end of concurrent executions"""
+    res = _seq_check(prop, tier, seed)
+    if not vlib.STOP.is_set():
+        geos, jobs = conc_jobs(tier, seed, extra=["probe=1"] + (["bound=1", "limit=200", "pct=30"] if tier == "quick" else []))
+        gen_and_validate(res, jobs, [prop], par=vlib.NCPU)
+        res.cov["rule"] += ("; plus: at the end of every explored interleaving of the scenario catalogue the allocator is drained "
+                            "and probed with a base-order allocation and a targeted allocation of a currently free frame")
+    return res
+
+
+PLANS["C15"] = check_c15
+PLANS["C10"] = check_c10
